@@ -40,6 +40,18 @@ let predict (c : string) (obs : string) : string * string * bool =
       let want = Printf.sprintf "%d %s 1 %s" (List.length m) (rle rel) (rle m) in
       (want, verdict (obs = want) ("self-started profile must release its tokens at the configured offsets, expected " ^ want),
        List.length m >= 2)
+  | ["wait"; spec; works] ->
+      let toks = flatten Z0 (parts_of_spec spec) in
+      let ws = if works = "-" then [] else List.map (fun x -> z_of_int (int_of_string x * 1000000)) (String.split_on_char ',' works) in
+      let k = List.length toks in
+      (* the code's Waiter (release rule waitFor <= 0) with its overdue bookkeeping, canonical run *)
+      let (fin, _ov) = wldrive false (nat_of_int (10 * k + 2 * List.length ws + 40)) ws (wlinit toks Z0) in
+      let ended = (match fin.spc with LEnd EExhausted -> true | _ -> false) in
+      let pred = if not ended then "model-not-ended"
+        else Printf.sprintf "%d %s 1" (List.length (creations fin)) (field_of_bool (not_ahead_b toks fin)) in
+      let want = Printf.sprintf "%d 1 1" k in
+      (pred, verdict (obs = want) ("every token of the profile is handed out, none before its instant, however late earlier ones were; expected " ^ want),
+       k >= 2 && ws <> [])
   | ["istep"; from; to_; step; dur_ms] ->
       let dur = int_of_string dur_ms * 1000000 in
       let zf = z_of_int (int_of_string from) and zt = z_of_int (int_of_string to_)
